@@ -19,6 +19,7 @@ func init() {
 }
 
 func runC16(c *core.Ctx) {
+	runFixtures(c, "paging", "bounds")
 	c.Explain("Structural clauses of C16 decided from source, for every io/fs.File implementation whose ReadDir(n) computes its own page window (keyvalue.file, cache.dir; pure delegations such as os.file are inventoried): (R16.1) an io.EOF return exists, control-dependent on n > 0 and on a cursor/length comparison, and that comparison is evaluated before every nil-error return reachable with n > 0; (R16.3) every path to a nil-error return that slices the listing also stores the cursor, and every value stored to the cursor depends on the old cursor or on the listing length, never on n alone; (R16.2) every slice of the listing has bounds entailed by dominating guards (no panic when the cursor is at/after the end); (R16.4) by-name listings are sorted by construction: the helper ends in io/fs.ReadDir and every ReadDirFS implementation of the module returns entries from a sorting source; (R16.5) a failing ReadDirNames is returned wrapped in a *PathError. NOT claimed: exactly-once delivery across pages as a value-level fact, agreement of entries with Stat, mount-point children.")
 	c.Assume("A2: io/fs.ReadDir and os.ReadDir return entries sorted by name", "A6: partial correctness")
 	c.RuleDoc("R16.1", "EOF exit exists and guards every nil-error return with n>0")
@@ -26,6 +27,7 @@ func runC16(c *core.Ctx) {
 	c.RuleDoc("R16.3", "cursor stored on every paging path; stored value depends on old cursor or listing length")
 	c.RuleDoc("R16.4", "by-name listings sorted by construction")
 	c.RuleDoc("R16.5", "listing failure wrapped in *PathError")
+	c.RuleDoc("R16.6", "the paged listing is stable per handle (memoised or sorted); children are enumerated on element boundaries")
 	for _, p := range c.Progs {
 		c.SetProg(p)
 		fileI := stdIface(p, "io/fs", "File")
@@ -59,7 +61,16 @@ func runC16(c *core.Ctx) {
 			c.Hard("anchor: expected >= 2 windowing ReadDir implementations, found %d", windowing)
 		}
 		r16Sorted(c, p)
+		// R16.6b: the in-memory store enumerates children by key prefix on element boundaries only
+		if fr := p.Method("mem", "fileRecord", "ReadDirNames"); fr != nil {
+			for _, v := range prefixTests(p, fr) {
+				c.Check(v.ok, "R16.6", "mem.fileRecord.ReadDirNames|"+v.key, v.pos, v.msg, v.msg)
+			}
+		} else {
+			c.Hard("anchor: mem.fileRecord.ReadDirNames")
+		}
 	}
+	c.Floor("R16.6", 3)
 	c.Floor("R16.1", 2)
 	c.Floor("R16.2", 2)
 	c.Floor("R16.3", 2)
@@ -347,6 +358,40 @@ func r16Window(c *core.Ctx, p *load.Program, tk string, fn *ssa.Function, win []
 	} else {
 		c.OK("R16.3", k3, pos, fmt.Sprintf("%d cursor store(s), all depending on old cursor/length; every paging path stores the cursor", len(stores)))
 	}
+	// ---- R16.6: every page of one handle must be cut from the same ordering ----
+	{
+		var src *ssa.Call
+		for _, s := range win {
+			v := s.X
+			if ex, ok := v.(*ssa.Extract); ok {
+				if cl, ok := ex.Tuple.(*ssa.Call); ok {
+					src = cl
+				}
+			}
+			if ph, ok := v.(*ssa.Phi); ok {
+				for _, e := range ph.Edges {
+					if ex, ok := e.(*ssa.Extract); ok {
+						if cl, ok := ex.Tuple.(*ssa.Call); ok {
+							src = cl
+						}
+					}
+				}
+			}
+		}
+		k6 := tk + ".ReadDir|stable-order"
+		switch {
+		case src == nil:
+			if _, _, isField := ssax.FieldLoad(win[0].X); isField {
+				c.OK("R16.6", k6, pos, "pages are cut from a list kept in the handle")
+			} else {
+				c.Unknown("R16.6", k6, pos, fmt.Sprintf("%s: cannot find where the paged listing comes from (unrecognised shape)", fname(fn)))
+			}
+		case listingIsStable(p, src, 0):
+			c.OK("R16.6", k6, p.Pos(src.Pos()), "the listing is memoised per handle (sync.Once) or comes from a sorting source")
+		default:
+			c.Bad("R16.6", k6, p.Pos(src.Pos()), fmt.Sprintf("%s cuts each page out of a listing obtained afresh from %s, which neither memoises nor sorts it: a store that enumerates in varying order (sync.Map.Range) makes pages skip and repeat children", fname(fn), ssax.CallName(src)))
+		}
+	}
 	// ---- R16.5 ----
 	ssax.Instrs(fn, func(ins ssa.Instruction) {
 		cl, ok := ins.(*ssa.Call)
@@ -422,6 +467,11 @@ func listName(v ssa.Value) string {
 		return x.Tuple.Name()
 	case *ssa.Phi:
 		return x.Name()
+	case *ssa.UnOp:
+		// every load of the same field denotes the same list inside one ReadDir (no CSE in SSA)
+		if ap := ssax.AccessPath(x); ap != "" {
+			return "field:" + ap
+		}
 	}
 	return v.Name()
 }
@@ -617,4 +667,33 @@ func r16Sorted(c *core.Ctx, p *load.Program) {
 		c.Check((good && any) || sorts, "R16.4", tk+".ReadDir|sorted-source", p.Pos(fn.Pos()), "entries come from a sorting source (os.ReadDir / io/fs.ReadDir / the helper)",
 			fmt.Sprintf("%s: ReadDirFS implementation returns entries that come neither from os.ReadDir / io/fs.ReadDir / hackpadfs.ReadDir nor from an explicit sort", fname(fn)))
 	}
+}
+
+// listingIsStable: the call returns a listing with a per-handle stable order: its callee stores the result under a
+// sync.Once (memoised), sorts it, or is a sorting source (io/fs.ReadDir, os.ReadDir, the ReadDir helper).
+func listingIsStable(p *load.Program, cl *ssa.Call, depth int) bool {
+	callee := ssax.StaticCallee(cl)
+	if callee == nil || depth > 2 {
+		return false
+	}
+	if ssax.FuncIs(callee, "io/fs", "ReadDir") || ssax.FuncIs(callee, "os", "ReadDir") || ssax.FuncIs(callee, mod, "ReadDir") {
+		return true
+	}
+	if callee.Blocks == nil {
+		return false
+	}
+	stable := false
+	ssax.Instrs(callee, func(ins ssa.Instruction) {
+		c2, ok := ins.(*ssa.Call)
+		if !ok {
+			return
+		}
+		if ssax.CalleeIs(c2, "sync", "(*Once).Do") {
+			stable = true
+		}
+		if cal := ssax.StaticCallee(c2); cal != nil && cal.Pkg != nil && (cal.Pkg.Pkg.Path() == "sort" || cal.Pkg.Pkg.Path() == "slices") {
+			stable = true
+		}
+	})
+	return stable
 }
